@@ -330,7 +330,11 @@ class Gen:
 
     def junk_line(self):
         r = self.r
-        k = r.randint(0, 12)
+        k = r.randint(0, 13)
+        if k == 13:
+            # a timestamped line ("@" + 12 digits + frame + ";") cut short anywhere, also inside the timestamp
+            full = "@%012X" % r.getrandbits(48) + self.f_df17() + ";"
+            return full[:r.choice([1, 2, 5, 6, 12, 13, 14, 20, r.randint(1, len(full) - 2)])].encode()
         if k == 11:
             # an over-long line whose TAIL, after a typical buffer size, is by itself a well-formed frame
             n = r.choice([1024, 4096, 8192, 16384, 32768, 65536, 65536, 131072])
